@@ -76,6 +76,10 @@ pub(crate) fn on_alloc(kind: &'static str, payload: usize, size: usize, total: u
     emit_with(|| json!({"ev":"Alloc","kind":kind,"payload":payload,"size":size,"total":total,"limit":limit}))
 }
 
+pub(crate) fn on_canalloc(req: usize, total: usize, limit: usize) {
+    emit_with(|| json!({"ev":"CanAlloc","req":req,"total":total,"limit":limit}))
+}
+
 pub(crate) fn on_dealloc(size: usize, total: usize) {
     emit_with(|| json!({"ev":"Dealloc","size":size,"total":total}))
 }
